@@ -23,8 +23,8 @@ RULE = ("two real dilated wormholes; w.dilate() on each side at a random point (
         "decision traces.")
 ASSUMPTIONS = ["Noise stand-in", "convergence bound: 600 virtual seconds after the last fault (ping interval 5 s)",
                "mailbox control messages are FIFO per sender (plain real server)"]
-FLOORS = {"quick": {"probes": 100000, "connected_cases": 250, "faults": 300, "reconverged": 200},
-          "thorough": {"probes": 3000000, "connected_cases": 8000, "faults": 7000, "reconverged": 7000}}
+FLOORS = {"quick": {"probes": 100000, "connected_cases": 250, "faults": 300, "reconverged": 200, "bulk_cases": 30},
+          "thorough": {"probes": 3000000, "connected_cases": 8000, "faults": 7000, "reconverged": 7000, "bulk_cases": 900}}
 
 
 def cases(tier, seed, prep=None):
@@ -32,6 +32,9 @@ def cases(tier, seed, prep=None):
     out = [{"seed": seed * 1000003 + 1100000 + i, "relay": i % 4 == 1, "nfaults": [0, 1, 1, 2, 3][i % 5]} for i in range(n)]
     # long-lived sessions: many generations
     out += [{"seed": seed * 1000003 + 1150000 + i, "relay": i % 4 == 1, "nfaults": [6, 10, 16][i % 3]} for i in range(15 if tier == "quick" else 400)]
+    # an application keeps streaming data while the link dies silently (a dead peer acknowledges nothing: the
+    # kernel's send buffer fills up and stays full)
+    out += [{"seed": seed * 1000003 + 1160000 + i, "relay": False, "nfaults": [1, 1, 2][i % 3], "bulk": "AB"[i % 2]} for i in range(40 if tier == "quick" else 1200)]
     return out
 
 
@@ -77,6 +80,9 @@ def run_case(spec):
     drv.factories = {"A": {}, "B": {}}
     sch = Scheduler(world, drv, strategy=rng.choice(["random", "pct", "netfirst", "timersfirst"]), chunking="mixed",
                     tiny_budget=rng.choice([100, 1000]))
+    bulk = {"started": False, "obj": None}
+    if spec.get("bulk"):
+        r.blackhole_sndbuf = 2 ** 18
     probes = {"n": 0, "viol": [], "selected_at": {}, "connected_once": False, "max_live_selected": 0,
               "candidate_cut_this_generation": False, "far_end_gone": 0}
 
@@ -101,6 +107,19 @@ def run_case(spec):
         if dp.both_connected():
             probes["connected_once"] = True
             probes["candidate_cut_this_generation"] = False
+            if spec.get("bulk") and not bulk["started"]:
+                from .c16 import Bulk
+                side = spec["bulk"]
+                live = [p for p in drv.protos(side) if drv.is_open(p)]
+                if not live and not bulk.get("asked"):
+                    other = "B" if side == "A" else "A"
+                    names = sorted(drv.listening[other])
+                    if names:
+                        bulk["asked"] = True
+                        drv.open(side, names[0])
+                if live:
+                    bulk["started"] = True
+                    bulk["obj"] = Bulk(live[0].transport, 200 * 1000000)
         for n in "AB":
             ends = dp.selected_ends(n)
             probes["max_live_selected"] = max(probes["max_live_selected"], len(ends))
@@ -203,6 +222,8 @@ def run_case(spec):
         viol.append({"key": "C11/no-reconvergence/%s-%s" % (dp.mstate("A"), dp.mstate("B")),
                      "msg": "600 virtual s after the last fault the Managers are %s/%s (roles %s/%s)" % (dp.mstate("A"), dp.mstate("B"), dp.role("A"), dp.role("B")),
                      "witness": wit()})
+    if bulk["obj"] is not None:
+        bulk["obj"].stopProducing()
     dp.a.close()
     dp.b.close()
     sch.hook = None
@@ -212,7 +233,8 @@ def run_case(spec):
     return {"violations": viol, "nontrivial": nontrivial,
             "counters": {"probes": probes["n"], "connected_cases": int(probes["connected_once"]), "faults": faults["done"],
                          "faults_skipped": faults["skipped"], "reconverged": int(converged and same_link),
-                         "l2_links": len(dp.l2_links()), "relay_cases": int(spec["relay"]), "far_end_gone_at_probe": probes["far_end_gone"],
+                         "l2_links": len(dp.l2_links()), "relay_cases": int(spec["relay"]), "bulk_cases": int(bulk["started"]),
+                         "bulk_bytes": bulk["obj"].written if bulk["obj"] else 0, "far_end_gone_at_probe": probes["far_end_gone"],
                          **{"fault_" + k: faults["kinds"].count(k) for k in set(faults["kinds"])},
                          "notrans_seen": len(MON.notrans)},
             "sets": {"dilation_notrans": ["%s.%s/%s" % k for k in set(MON.notrans)],
